@@ -94,7 +94,7 @@ def op_stack_effect(c):
     return [0] + opt(r)
 
 
-MARK = {"consts": 30, "names": 20, "vars": 4, "cells": ["v0", "c1"], "frees": ["f0"]}
+MARK = {"consts": 30, "names": 20, "vars": 4, "cells": ["v0", "c1"], "frees": ["f0", "v1"]}
 
 
 def _enc(name):
@@ -153,8 +153,14 @@ def op_freelocal(c):
     opc = get_opcode(t[0], t[4])
     outer = [k for k in t[3].co_consts if hasattr(k, "co_code")][0]
     g = [k for k in outer.co_consts if hasattr(k, "co_code") and k.co_name == "g"][0]
-    rows = []
-    for i in Bytecode(g, opc):
-        if i.opname.startswith(("LOAD_FAST", "STORE_FAST", "LOAD_DEREF", "STORE_DEREF", "MAKE_CELL", "LOAD_CLOSURE", "DELETE_FAST", "LOAD_FAST_AND_CLEAR")):
-            rows.append([i.offset, i.opname, i.argval if isinstance(i.argval, (str, int)) else list(i.argval)])
-    return rows
+    def rows_of(ins):
+        rows = []
+        for i in ins:
+            if i.opname.startswith(("LOAD_FAST", "STORE_FAST", "LOAD_DEREF", "STORE_DEREF", "MAKE_CELL", "LOAD_CLOSURE", "DELETE_FAST", "LOAD_FAST_AND_CLEAR")):
+                rows.append([i.offset, i.opname, i.argval if isinstance(i.argval, (str, int)) else list(i.argval)])
+        return rows
+    own = list(Bytecode(g, opc))
+    # the same function through a Bytecode object that was made for ANOTHER code object: get_instructions(x) is about x
+    other = list(Bytecode(outer, opc).get_instructions(g))
+    lines = lambda ins: [[i.offset, i.starts_line] for i in ins if i.starts_line is not None]
+    return {"rows": rows_of(own), "rows_via_other": rows_of(other), "lines": lines(own), "lines_via_other": lines(other)}
